@@ -17,6 +17,9 @@ VOCAB += ["ABSENT", "ABSTRACT-SYNTAX", "ALL", "BMPString", "BY", "CHARACTER", "C
           "VideotexString", "VisibleString"]
 
 SEEDS = [
+    # component lists at their smallest: no component, nothing but the extension marker, the marker in front of everything
+    "Seed5 DEFINITIONS AUTOMATIC TAGS ::= BEGIN E0 ::= SEQUENCE { } E1 ::= SEQUENCE { ... } E2 ::= SET { ... } E3 ::= SEQUENCE { ..., late BOOLEAN OPTIONAL }\n"
+    " E4 ::= SEQUENCE { only BOOLEAN, ... } E5 ::= SEQUENCE { in SEQUENCE { ... }, c CHOICE { a NULL, ... }, e ENUMERATED { x, ... } } END",
     # block comments over several lines (nested, too) in front of, inside and behind the module: the documented panic is for
     # UNTERMINATED comments only, whatever blank lines a fault puts around these
     "/* header\n over two lines */\nSeed4 DEFINITIONS AUTOMATIC TAGS ::= BEGIN\n A ::= SEQUENCE { a INTEGER (0..7), /* inner\n comment /* nested\n one */ goes\n on */ b BOOLEAN }\n /* in front\n of the end */\nEND\n/* footer\n of two lines */",
@@ -83,6 +86,8 @@ def run(v):
                  replay_to=sim, coverage=False, heap="2g", extra=["-depth", "5", "-seed", str(v.seed)])
     seen = set()
     with open(vec, "a") as o:
+        # ... and the seed modules as they stand (no fault at all): valid input is input, too
+        o.write(json.dumps({"faults": [], "soup": []}) + "\n")
         for l in open(sim):
             if l not in seen:
                 seen.add(l)
